@@ -138,17 +138,17 @@ Proof.
 Qed.
 
 (* the theorem about the bit-exact model *)
-Theorem day_frac_sound (v1 v2 : PrimFloat.float) :
+Theorem day_frac0_sound (v1 v2 : PrimFloat.float) :
   fin v1 -> fin v2 ->
   Rabs (R_of v1) <= bpow radix2 53 -> Rabs (R_of v2) <= bpow radix2 53 ->
   Rabs (R_of v1 + R_of v2) <= bpow radix2 52 ->
-  let '(d, f) := day_frac v1 v2 in
+  let '(d, f) := day_frac0 v1 v2 in
   fin d /\ fin f /\ (exists k : Z, R_of d = IZR k) /\
   Rabs (R_of d + R_of f - (R_of v1 + R_of v2)) <= bpow radix2 (-53) /\
   Rabs (R_of f) <= / 2 + bpow radix2 (-50).
 Proof.
   intros F1 F2 B1 B2 HV.
   pose proof (day_frac_eqs v1 v2 (conj F1 B1) (conj F2 B2)) as H.
-  destruct (day_frac v1 v2) as [d f]. destruct H as (Fd & Ff & Heqs).
+  destruct (day_frac0 v1 v2) as [d f]. destruct H as (Fd & Ff & Heqs).
   split; [exact Fd|]. split; [exact Ff|]. exact (dayfrac_eqs_sound _ _ _ _ Heqs HV).
 Qed.
